@@ -328,3 +328,19 @@ Proof.
   - apply IH.
   - apply IH.
 Qed.
+
+(* ------------------------------------------------------------------------------------------ *)
+(** A value that lands exactly on the running mean leaves mean and M unchanged, but the
+    population variance is still re-derived from the grown count: M / (n + 1), not the old M / n. *)
+Lemma ds_update_at_mean : forall s : ds,
+  s_mean (ds_update s (s_mean s)) = s_mean s /\
+  d_m (s_disp (ds_update s (s_mean s))) = d_m (s_disp s) /\
+  d_var (s_disp (ds_update s (s_mean s))) = calc_pop_var (d_m (s_disp s)) (s_count s + 1) /\
+  s_count (ds_update s (s_mean s)) = s_count s + 1.
+Proof.
+  intros s. unfold ds_update, disp_update. cbn [s_mean s_disp d_m d_var s_count].
+  assert (E : calc_m (d_m (s_disp s)) (s_mean s) (s_mean s)
+                (calc_mean (s_mean s) (s_mean s) (s_count s + 1)) = d_m (s_disp s))
+    by (unfold calc_m; ring).
+  rewrite E. repeat split. unfold calc_mean, Qcdiv. ring.
+Qed.
